@@ -2,7 +2,7 @@
    (coq/Gen/Units_<v>.v, regenerated from the XML on every run) and the refutation witnesses. *)
 From Coq Require Import List NArith ZArith QArith Bool Lia.
 From HV Require Import Base.Res Base.Str Model.Units Proofs.UnitsProofs Gen.UnitsAll.
-From HV Require Gen.Units_8_3_0 Gen.Units_8_2_0 Gen.Units_8_1_0.
+From HV Require Gen.Units_8_3_0 Gen.Units_8_2_0 Gen.Units_8_1_0 Gen.Units_score_2_0_0.
 Import ListNotations.
 Local Open Scope N_scope.
 
@@ -184,7 +184,7 @@ Proof.
   vm_compute. discriminate.
 Qed.
 
-(* RECORD of finding C11-F3 (f3 = false is the code before the repair, with or without repair F4):
+(* RECORD of finding C11-F3 (f3 = false is the code before fix: 0669633, with or without fix: 537f494):
    "Temperature/3 degree Celsius" with HED 8.1.0 meets every hypothesis of accepted_iff, the unit text spells the
    unit degree Celsius, and the answer was UNITS_INVALID (and no value) *)
 Lemma accepted_refuted_blank_name_lemma :
@@ -210,7 +210,7 @@ Proof.
   split; intros [|]; vm_compute; reflexivity.
 Qed.
 
-(* RECORD of finding C11-F4 (f3 = f4 = false is the code before both repairs): "Duration/3 m s" with HED 8.3.0
+(* RECORD of finding C11-F4 (f3 = f4 = false is the code before fix: 537f494 and fix: 0669633): "Duration/3 m s" with HED 8.3.0
    meets every hypothesis of other_text_invalid -- "m s" spells no unit -- and drew no issue at all, while the
    conversion raised ValueError *)
 Lemma other_text_refuted_extra_words_lemma :
@@ -300,3 +300,74 @@ Proof.
   - reflexivity.
   - vm_compute; reflexivity.
 Qed.
+
+(* ------------------------------------------------------------------ the one bundled text with two readings: uV
+   in electricPotentialUnits (HED 8.3.0, score 2.0.0): micro + symbol V (factors 10e-6 and 0.000001 as the schema
+   writes them) and the unit NAME uV (factor 1.0).  It is outside [unamb]; this is what the code does with it. *)
+
+Definition s_epu : str :=
+  [101; 108; 101; 99; 116; 114; 105; 99; 80; 111; 116; 101; 110; 116; 105; 97; 108; 85; 110; 105; 116; 115].
+Definition s_V : str := [86].
+Definition s_u : str := [117].
+Definition s_uV : str := [117; 86].
+Definition s_uv : str := [117; 118].
+Definition s_UV : str := [85; 86].
+Definition s_Feature_amplitude : str :=
+  [70; 101; 97; 116; 117; 114; 101; 45; 97; 109; 112; 108; 105; 116; 117; 100; 101].
+
+Definition find_class (S : uschema) (name : str) : classdef :=
+  match find (fun c => str_eqb (c_name c) name) (s_classes S) with Some c => c | None => dummy_class end.
+
+Definition C83_epu := find_class S83 s_epu.
+Definition U83_V := find_unit C83_epu s_V.
+Definition U83_uV := find_unit C83_epu s_uV.
+Definition m83_u := find_mod S83 s_u.
+Definition T_numeric : utag := mkUTag [] [] true.
+
+Definition Ssc2 := Units_score_2_0_0.schema.
+Definition Tsc2 := find_tag Units_score_2_0_0.tags s_Feature_amplitude.
+Definition cssc2 := tag_unit_classes Ssc2 Tsc2.
+
+Lemma ambiguous_uV_lemma :
+  (* two readings, excluded by unamb *)
+  spells S83 U83_V (Some m83_u) s_uV /\ spells S83 U83_uV None s_uV /\
+  In U83_V (c_units C83_epu) /\ In U83_uV (c_units C83_epu) /\ In C83_epu (s_classes S83) /\
+  unamb S83 [C83_epu] s_uV = false /\
+  (* 3 uV is accepted, and converted through the SYMBOL reading micro-V (the exact-key lookup comes first):
+     3 * 0.000001 * 10e-6 = 3e-11, not 3 * 1.0 *)
+  check_units_valid true true S83 T_numeric [C83_epu] (s_3 ++ 32 :: s_uV) = [] /\
+  (exists q, value_as_default_unit true true true S83 [C83_epu] (s_3 ++ 32 :: s_uV) = Ok (Some q) /\
+             Qeq q (3 # 100000000000) /\
+             Qeq q (Qmult (Qmult (inject_Z 3) (pow10 0)) (conv true U83_V (Some m83_u))) /\
+             ~ Qeq q (Qmult (Qmult (inject_Z 3) (pow10 0)) (conv true U83_uV None))) /\
+  (* in any other letter case only the NAME reading exists: factor 1.0 *)
+  (exists q, value_as_default_unit true true true S83 [C83_epu] (s_3 ++ 32 :: s_uv) = Ok (Some q) /\ Qeq q 3) /\
+  (exists q, value_as_default_unit true true true S83 [C83_epu] (s_3 ++ 32 :: s_UV) = Ok (Some q) /\ Qeq q 3) /\
+  (* the same through the score 2.0.0 node Feature-amplitude, which uses this unit class *)
+  check_units_valid true true Ssc2 Tsc2 cssc2 (s_3 ++ 32 :: s_uV) = [] /\
+  (exists q, value_as_default_unit true true true Ssc2 cssc2 (s_3 ++ 32 :: s_uV) = Ok (Some q) /\
+             Qeq q (3 # 100000000000)).
+Proof.
+  split; [split; [split; [in_list|vm_compute; reflexivity]|vm_compute; reflexivity]|].
+  split; [split; [exact I|left; vm_compute; reflexivity]|].
+  split; [in_list|]. split; [in_list|]. split; [in_list|].
+  split; [vm_compute; reflexivity|].
+  split; [vm_compute; reflexivity|].
+  split.
+  { eexists. split; [vm_compute; reflexivity|].
+    split; [vm_compute; reflexivity|]. split; [vm_compute; reflexivity|]. vm_compute. discriminate. }
+  split; [eexists; split; vm_compute; reflexivity|].
+  split; [eexists; split; vm_compute; reflexivity|].
+  split; [vm_compute; reflexivity|].
+  eexists; split; vm_compute; reflexivity.
+Qed.
+
+(* ------------------------------------------------------------------ a per-string cache keyed by case-folded text
+   would break the per-tag rule (the shape of seeded change C11/4): (Duration/3 ms), (Duration/3 MS) *)
+Lemma memo_casefold_unsound_lemma :
+  let V := fun te : utag * str => validate_units true true S83 (fst te) (snd te) in
+  let key := fun te : utag * str => casefold (snd te) in
+  let tags := [(T83, s_3 ++ 32 :: s_ms); (T83, s_3 ++ 32 :: [77; 83])] in
+  flat_map V tags = [UNITS_INVALID] /\ memo_loop V key [] tags = [] /\
+  validate_units_string true true S83 tags = [UNITS_INVALID].
+Proof. vm_compute. repeat split; reflexivity. Qed.
